@@ -160,6 +160,63 @@ def direction_A(ctx, sts, mode):
     core.parallel(ctx, work, sts)
 
 
+def make_trace(tid, rng, nops=30):
+    """B: a random VMDK extent list at real geometry opened through VMDK([handles...]); trace for TraceDisk (extents source)."""
+    from dissect.hypervisor.disk.vmdk import VMDK
+
+    grain = rng.choice([8, 16, 128])
+    gbytes = grain * 512
+    k = rng.randrange(2, 6)
+    vfs, exts, bases = [], [], []
+    start = 0
+    for i in range(k):
+        kind = rng.choice(["flat", "hosted", "hosted", "se", "cowd"])
+        n = rng.randrange(1, 30)
+        if kind == "flat":
+            vf = VirtualFile(n * gbytes, [(0, n * gbytes, "pat", i)], fid=i)
+            exts.append({"fmt": "flat", "start": start, "n": n, "img": {}})
+            bases.append(0)
+        else:
+            pos = list(range(1, n + 3))
+            rng.shuffle(pos)
+            kinds = ["U", "D", "D"] + ([] if kind == "cowd" else ["Z"]) + (["F"] if kind == "se" else [])
+            ents = []
+            for _ in range(n):
+                t = rng.choice(kinds)
+                ents.append((t, pos.pop()) if t == "D" else (t, 0))
+            gtes = 4 if kind == "hosted" else 64 if kind == "se" else 4096
+            present = [rng.random() < 0.9 for _ in range(-(-n // gtes))]
+            for r in range(n):
+                if not present[r // gtes]:
+                    ents[r] = ("U", 0)
+            if kind == "hosted":
+                vf, info = enc_vmdk.build_hosted(ents, present, capacity=n * grain, grain=grain, gtes=gtes, file_id=i, max_pos=n + 3, footer=rng.random() < 0.3)
+            elif kind == "se":
+                vf, info = enc_vmdk.build_sesparse(ents, present, capacity=n * grain, grain=grain, gt_sectors=1, file_id=i, max_pos=n + 3)
+            else:
+                vf, info = enc_vmdk.build_cowd(ents, present, capacity=n * grain, grain=grain, file_id=i, max_pos=n + 3)
+            exts.append({"fmt": "vmdk", "start": start, "n": n,
+                         "img": {"class": "cowd" if kind == "cowd" else "se" if kind == "se" else "sparse", "gtes": gtes, "cb": 1, "cap": n,
+                                 "gd": [bool(x) for x in present], "t": [e[0] for e in ents], "p": [e[1] for e in ents], "parent": False}})
+            bases.append(info["data_base"])
+        vfs.append(vf)
+        start += n
+    size_b = start * gbytes
+
+    def opener():
+        for vf in vfs:
+            vf.seek(0)
+        return VMDK(list(vfs))
+
+    s, fresh = opener(), None
+    # the probe needs its own handles: rebuild is expensive, so reuse the same files through a second VMDK object
+    fresh = opener()
+    rec = record.Recorder(s, size_b, probe=fresh.readoffset)
+    record.random_ops(rec, rng, size_b, nops, unit=gbytes, big=min(20 * gbytes, 1 << 20), sectors_fn=s.read_sectors, ssize=512)
+    geo = {"cellB": gbytes, "cb": 1, "stride": gbytes, "bases": bases, "pbase": 0}
+    return {"tid": tid, "fmt": "extents", "exts": exts, "sizeB": size_b, "sector": 512, "geo": geo, "events": rec.events}
+
+
 def run(ctx):
     thorough = ctx.tier == "thorough"
     rng = random.Random(ctx.seed + 1010)
@@ -177,6 +234,8 @@ def run(ctx):
         sts = rng.sample(sts, min(len(sts), 700))
     direction_A(ctx, sts, "vmdk")
     direction_A(ctx, diskprop.dump_states(ctx, "Extents", "Extents_hdd.cfg"), "hdd")
+    diskprop.traces(ctx, "extents", lambda tid, r: make_trace(tid, r, 40 if thorough else 25), 200 if thorough else 32,
+                    "TraceDisk", "TraceDisk.cfg", lambda t: {"format": "extents", "n": len(t["exts"])}, label="random extent lists")
 
 
 def replay(ctx, body):
